@@ -134,3 +134,82 @@ def lineax_registry(w, seed, spec):
     if bases != ['AbstractLinearOperator']:
         fails.append(f'ASSUMPTION-MISMATCH furax operators derive from lineax classes {bases}')
     return fails
+
+
+def user_tagged(w, seed, spec):
+    """user-declared tagged operators (the public decorators exist for this) and their furax wrappers A.T, A.T.T, A.I:
+    every lineax tag answered True must hold for the dense matrix (the inverse's matrix is numpy's inverse)"""
+    from furax.operators import (AbstractLinearOperator, lower_triangular, negative_semidefinite, positive_semidefinite,
+                                 symmetric, upper_triangular)
+    from furax.operators import diagonal as diagonal_deco
+
+    class _Dense(AbstractLinearOperator):
+        matrix: jax.Array
+
+        def mv(self, x):
+            return self.matrix @ x
+
+        def in_structure(self):
+            return jax.ShapeDtypeStruct((self.matrix.shape[1],), self.matrix.dtype)
+
+    @lower_triangular
+    class Lower(_Dense):
+        pass
+
+    @upper_triangular
+    class Upper(_Dense):
+        pass
+
+    @symmetric
+    class Sym(_Dense):
+        pass
+
+    @positive_semidefinite
+    class Psd(_Dense):
+        pass
+
+    @negative_semidefinite
+    class Nsd(_Dense):
+        pass
+
+    @diagonal_deco
+    class Diag(_Dense):
+        pass
+    rng = np.random.default_rng(seed)
+    fails = []
+    for n in (3, 4):
+        R = rng.uniform(0.5, 1.5, (n, n)).astype(np.float32)
+        spd = (R @ R.T + n * np.eye(n)).astype(np.float32)
+        ops = {
+            'L': Lower(jnp.asarray(np.tril(R) + n * np.eye(n, dtype=np.float32))),
+            'U': Upper(jnp.asarray(np.triu(R) + n * np.eye(n, dtype=np.float32))),
+            'S': Sym(jnp.asarray(R + R.T)),
+            'P': Psd(jnp.asarray(spd)),
+            'N': Nsd(jnp.asarray(-spd)),
+            'D': Diag(jnp.asarray(np.diag(np.diag(R)))),
+        }
+        for name, op in ops.items():
+            M = dense(op)
+            cases = [(name, op, M)]
+            try:
+                cases.append((f'{name}.T', op.T, dense(op.T)))
+                if not np.allclose(cases[-1][2], M.T, atol=1e-5):
+                    fails.append(f'{name}.T: dense matrix is not the transpose')
+                cases.append((f'{name}.T.T', op.T.T, M))
+                cases.append((f'{name}.I', op.I, np.linalg.inv(M.astype(np.float64))))
+                cases.append((f'{name}.I.T', op.I.T, np.linalg.inv(M.astype(np.float64)).T))
+            except Exception as e:      # noqa: BLE001
+                fails.append(f'{name}: building wrappers: {type(e).__name__}: {str(e)[:80]}')
+            for label, o, mat in cases:
+                for tag, holds in TAGS.items():
+                    try:
+                        v = getattr(lx, tag)(o)
+                    except Exception as e:      # noqa: BLE001
+                        fails.append(f'{label}: lineax.{tag} raises {type(e).__name__}')
+                        continue
+                    if v is True and not holds(np.asarray(mat, np.float64)):
+                        fails.append(f'{label}: lineax.{tag} is True but the dense matrix does not have the property '
+                                     f'({type(o).__name__} wrapping a user operator declared {type(op).__name__})')
+            if len(fails) > 6:
+                return fails[:8]
+    return fails[:8]
